@@ -161,6 +161,22 @@ func VH_C02_ReadBack() {
 	}
 	if r.method == "PUT" && r.route == "manifests" && code == 201 {
 		vh.Cover("C02.after-push")
+		// the push itself was acknowledged: it reads back too (a new tag, possibly on a
+		// manifest that is already stored, or a push by digest)
+		fresh := true
+		for _, it := range keep {
+			if it.repo == r.repo && it.ref == r.ref {
+				fresh = false
+			}
+		}
+		if fresh {
+			mt := r.hdr.Get("Content-Type")
+			if mt == "" {
+				mt = types.MediaTypeDetect(r.body)
+			}
+			keep = append(keep, vhItem{r.repo, r.ref, r.body, digest.Canonical.FromBytes(r.body), mt})
+			vh.Cover("C02.new-reference-read-back")
+		}
 	}
 	if r.method == "DELETE" && code == 202 {
 		vh.Cover("C02.after-delete")
